@@ -16,19 +16,23 @@ static hm_viol_t *hm_v; static int hm_nv, hm_av;
 static char hm_trace[8192]; static size_t hm_tl;           /* textual prefix of the current history (the replay witness) */
 static long hm_opcount[64][4]; static const char *hm_opname[64];
 
-static size_t hm_alloc(void) {
+static size_t hm_self;    /* bytes the monitor itself holds (violation records): excluded from the balance */
+static size_t hm_raw(void) {
 #if XV_ASAN
   return __sanitizer_get_current_allocated_bytes();
 #else
   return 0;
 #endif
 }
+static size_t hm_alloc(void) { return hm_raw() - hm_self; }
 
 static void hm_violation(const char *key, const char *what) {
-  int i;
+  int i; size_t a0;
   for (i = 0; i < hm_nv; i++) if (!strcmp(hm_v[i].key, key)) { hm_v[i].count++; return; }
+  a0 = hm_raw();
   if (hm_nv == hm_av) { hm_av = hm_av ? 2 * hm_av : 32; hm_v = realloc(hm_v, sizeof(hm_viol_t) * hm_av); }
   hm_v[hm_nv].key = strdup(key); hm_v[hm_nv].what = strdup(what); hm_v[hm_nv].witness = strdup(hm_trace); hm_v[hm_nv].count = 1; hm_nv++;
+  hm_self += hm_raw() - a0;
 }
 #define TR(...) do { if (hm_tl < sizeof hm_trace - 200) hm_tl += snprintf(hm_trace + hm_tl, sizeof hm_trace - hm_tl, __VA_ARGS__); } while (0)
 
@@ -63,7 +67,9 @@ static void gen_crystal(xv_rng *r, m_crystal *c, const char *forced_name) {
     /* values are multiples of 2^-10 so that they print exactly in a few characters (the file reader takes 99 characters per line) */
     for (k = 0; k < 3; k++) c->cell[k] = 2.0 + xv_below(r, 13 * 1024) / 1024.0;
     for (k = 3; k < 6; k++) c->cell[k] = xv_below(r, 4) == 0 ? 90.0 : 55.0 + xv_below(r, 70 * 1024) / 1024.0;
-    v = m_volume(c->cell); if (isfinite(v) && v > 1.0) break;
+    v = m_volume(c->cell);
+    /* well-conditioned cells only: the volume formula cancels when 1-cos2a-cos2b-cos2g+2cacbcg is small */
+    if (isfinite(v) && v > 0.3 * c->cell[0] * c->cell[1] * c->cell[2]) break;
   }
   c->n_atom = 1 + xv_below(r, 12);
   for (k = 0; k < c->n_atom; k++) { c->atom[k].Zatom = 1 + xv_below(r, 92); c->atom[k].fraction = xv_below(r, 3) ? 1.0 : (1 + xv_below(r, 1024)) / 1024.0;
@@ -87,7 +93,8 @@ static int same_crystal(const Crystal_Struct *s, const m_crystal *c, int check_v
   if (s->a != c->cell[0] || s->b != c->cell[1] || s->c != c->cell[2] || s->alpha != c->cell[3] || s->beta != c->cell[4] || s->gamma != c->cell[5]) { snprintf(why, nwhy, "cell differs"); return 0; }
   if (s->n_atom != c->n_atom) { snprintf(why, nwhy, "n_atom %d != %d", s->n_atom, c->n_atom); return 0; }
   for (k = 0; k < c->n_atom; k++) if (s->atom[k].Zatom != c->atom[k].Zatom || s->atom[k].fraction != c->atom[k].fraction || s->atom[k].x != c->atom[k].x || s->atom[k].y != c->atom[k].y || s->atom[k].z != c->atom[k].z) { snprintf(why, nwhy, "atom %d differs", k); return 0; }
-  if (check_volume && !(fabs(s->volume - v) <= 1e-12 * fabs(v))) { snprintf(why, nwhy, "volume %.17g, recomputed %.17g", s->volume, v); return 0; }
+  /* forward error bound of V = abc*sqrt(D): dV = (abc)^2 dD / (2V), dD of order 10 ulp */
+  if (check_volume && !(fabs(s->volume - v) <= 1e-12 * fabs(v) + 1e-14 * (c->cell[0] * c->cell[1] * c->cell[2]) * (c->cell[0] * c->cell[1] * c->cell[2]) / fabs(v))) { snprintf(why, nwhy, "volume %.17g, recomputed %.17g", s->volume, v); return 0; }
   return 1;
 }
 
